@@ -31,11 +31,11 @@ CFG = dict(
         "error without effect; concurrent batches are compared by their final state only (and only while no discard "
         "happened since the last Open: DiscardPrecommittedTxsSince does not recede the in-memory precommit watcher)",
         "the AHT is modelled as a function of the chain (at Open it is reset to the committed transactions and rebuilt "
-        "from the reloaded ones, /repo 2077e08). The tx log behind the committed offset is modelled record by record: "
-        "live precommitted records, records discarded by DiscardPrecommittedTxsSince (they stay in front of the logical end "
-        "and ARE taken back by the next Open when they chain, as the code documents), and records behind the logical end "
-        "(not reloaded by an Open, or appended by a precommit that then failed with 'buffer is full'), which the next "
-        "performPrecommit drops (txLog.SetOffset truncates since /repo 09014a8) and an Open that comes first finds again",
+        "from the reloaded ones, /repo 2077e08). The tx log behind the committed offset is modelled record by record: the "
+        "precommitted records up to the logical end (DiscardPrecommittedTxsSince cuts the log at the end of the last record "
+        "it keeps, /repo 8728288), and records behind the logical end (a record appended by a precommit that then failed "
+        "with 'buffer is full'), which the next performPrecommit or discard drops (txLog.SetOffset truncates since /repo "
+        "09014a8) and an Open that comes first finds and takes back",
         "stores with embedded values are run (replicas with EmbeddedValues on and off) but not modelled apart: since /repo "
         "b814f8c the reload loop skips and checks the values prefix. Its 2-byte length wraps at 64 KiB of values per "
         "transaction; such a record is still dropped at reopen -- the harness never writes that much",
@@ -51,8 +51,9 @@ CFG = dict(
         "(PrevAlh, BlRoot) and concludes `... or Collision H` (no collision-resistance axiom)",
         "the directed schedule that failed before /repo 7c27871 (deliver 1, deliver 2, discard since 1, deliver 1: stale "
         "BlRoot of the pooled tx holder) runs at the start of every check; a recurrence is a violation; so is any "
-        "Close+Open that drops precommitted transactions without a discard in the session (before /repo b814f8c: every "
-        "replica with embedded values)",
+        "Close+Open that changes a replica's precommitted state: precommitted transactions dropped (before /repo b814f8c: "
+        "every replica with embedded values) or discarded transactions brought back (before /repo 8728288: the reload loop "
+        "found the discarded records again); the finding carries the schedule",
     ],
 )
 
